@@ -96,6 +96,10 @@ class Outcome:
 
 def _run_shard(args):
     modname, desc = args
+    if os.environ.get('WCVERIF_DEBUG'):
+        import faulthandler
+        import signal
+        faulthandler.register(signal.SIGUSR1, all_threads=True)
     try:
         bootstrap()
         mod = importlib.import_module(modname)
@@ -175,7 +179,7 @@ def main(argv=None):
         for ent in load_findings():
             if prop not in ent.get('properties', []):
                 continue
-            wit = [w for w in ent.get('witnesses', []) if w.get('check') == prop]
+            wit = [w for w in ent.get('witnesses', []) if prop == w.get('check') or prop in w.get('checks', ())]
             if ent.get('status') == 'fixed':
                 for w in wit:
                     ok, detail = mod.replay(w['case'])
